@@ -48,6 +48,8 @@ type c06Hop struct {
 	I     int       `json:"i,omitempty"`
 	KC    bool      `json:"kc,omitempty"`
 	Orc   c06Oracle `json:"orc"`
+	// Fails (C06 only): indices of this step's Storage calls that return an injected error
+	Fails []int `json:"fails,omitempty"`
 }
 type c06Cfg struct {
 	N       int    `json:"n"`
@@ -120,9 +122,13 @@ type c06World struct {
 	dirIDs    map[string]int
 	nameIDs   map[string]int
 	stapleSer map[string]int
-	orc       *c06Oracle
-	inst      int
-	curInst   string
+	// the chain each issuance returned (digest of the PEM bytes, number of certificates): what is stored
+	// and what is loaded back must be these very bytes
+	chainDigest map[int]string
+	chainBlocks map[int]int
+	orc         *c06Oracle
+	inst        int
+	curInst     string
 
 	plan         *c06Plan
 	cnt          int
@@ -132,9 +138,14 @@ type c06World struct {
 
 	// sink receives the non-Storage events (issuer calls, key generations); nil = the memory
 	// double's log. onGenKey / onIssued: extra notifications used by the process-death driver.
+	// rawGet / rawPut / snapFn: raw access to the storage contents for the harness itself (planting an
+	// OCSP staple, decoding the stored files); nil = the memory double
+	rawGet   func(key string) ([]byte, bool)
+	rawPut   func(key string, val []byte)
+	snapFn   func(o *c06Obs)
 	sink     func(kind, key string)
 	onGenKey func(id int, digest string)
-	onIssued func(ser int, serial, stapleKey string)
+	onIssued func(ser int, serial, stapleKey, chainDigest string, blocks int)
 
 	sPre, sLoad, sSave, sID int
 	revoked                 map[int]bool // model serial -> revoked for key compromise?
@@ -216,11 +227,13 @@ func (i *c06Issuer) Issue(ctx context.Context, csr *x509.CertificateRequest) (*c
 		return nil, certmagic.ErrNoRetry{Err: err}
 	}
 	w.serIDs[leaf.SerialNumber.String()] = ser
+	w.chainDigest[ser] = doubles.Digest(chain)
+	w.chainBlocks[ser] = strings.Count(string(chain), "-----BEGIN CERTIFICATE-----")
 	if len(names) > 0 {
 		sk := certmagic.StorageKeys.OCSPStaple(&certmagic.Certificate{Names: []string{strings.ToLower(names[0])}}, chain)
 		w.stapleSer[sk] = ser
 		if w.onIssued != nil {
-			w.onIssued(ser, leaf.SerialNumber.String(), sk)
+			w.onIssued(ser, leaf.SerialNumber.String(), sk, w.chainDigest[ser], w.chainBlocks[ser])
 		}
 	}
 	return &certmagic.IssuedCertificate{Certificate: chain, Metadata: map[string]any{"harness_issuer": i.key, "n": ser}}, nil
@@ -255,7 +268,8 @@ func c06NewWorld(cfg c06Cfg, subj c06Subject) *c06World {
 	now := time.Now().Truncate(time.Second)
 	w := &c06World{b: doubles.NewMemBackend(), cfg: cfg, subj: subj, now: now, t0: now.Add(-3000 * time.Hour),
 		keyIDs: map[string]int{}, serIDs: map[string]int{}, dirIDs: map[string]int{}, nameIDs: map[string]int{},
-		stapleSer: map[string]int{}, dropped: map[int]bool{}, revoked: map[int]bool{}}
+		stapleSer: map[string]int{}, dropped: map[int]bool{}, revoked: map[int]bool{},
+		chainDigest: map[int]string{}, chainBlocks: map[int]int{}}
 	for i := 0; i < cfg.N; i++ {
 		ca := doubles.NewCA("harness CA " + c06IssuerKeys[i])
 		w.cas = append(w.cas, ca)
@@ -367,7 +381,7 @@ func c06Classify(err error, dead bool) int {
 		return 3
 	case strings.Contains(s, "issuer down"):
 		return 4
-	case errors.Is(err, fs.ErrNotExist) || strings.Contains(s, "file does not exist"):
+	case errors.Is(err, fs.ErrNotExist) || strings.Contains(s, "file does not exist") || strings.Contains(s, "no such file or directory"):
 		return 1
 	}
 	return 5
@@ -378,6 +392,10 @@ func (w *c06World) seenOf(cert certmagic.Certificate) *c06Seen {
 	if cert.Leaf != nil {
 		if id, ok := w.serIDs[cert.Leaf.SerialNumber.String()]; ok {
 			s.Ser = id
+			// loading back yields the same bytes: the whole chain, not just the leaf
+			if n, ok := w.chainBlocks[id]; ok && len(cert.Certificate.Certificate) != n {
+				s.Ser = 777777
+			}
 		}
 	}
 	if sg, ok := cert.PrivateKey.(crypto.Signer); ok {
@@ -405,7 +423,11 @@ func (w *c06World) revokeEnv(i int, kc bool) {
 		return
 	}
 	key := certmagic.StorageKeys.SiteCert(w.iss[i].key, w.subj.Canonical)
-	data, ok := w.b.Get(key)
+	get, put := w.b.Get, w.b.Put
+	if w.rawGet != nil {
+		get, put = w.rawGet, w.rawPut
+	}
+	data, ok := get(key)
 	if !ok {
 		return
 	}
@@ -430,7 +452,7 @@ func (w *c06World) revokeEnv(i int, kc bool) {
 	}
 	name := leaf.Subject.CommonName
 	sk := certmagic.StorageKeys.OCSPStaple(&certmagic.Certificate{Names: []string{strings.ToLower(name)}}, data)
-	w.b.Put(sk, resp)
+	put(sk, resp)
 	if id, ok := w.serIDs[leaf.SerialNumber.String()]; ok {
 		w.revoked[id] = kc
 	}
@@ -620,6 +642,10 @@ func (w *c06World) valClass(na time.Time) int {
 
 // snapshot decodes the raw storage contents (certificates/ namespace) with real crypto.
 func (w *c06World) snapshot(o *c06Obs) {
+	if w.snapFn != nil {
+		w.snapFn(o)
+		return
+	}
 	w.snapshotFrom(o, w.b.Keys(), func(k string) []byte { v, _ := w.b.Get(k); return v })
 }
 
@@ -661,6 +687,11 @@ func (w *c06World) snapshotFrom(o *c06Obs, keys []string, get func(string) []byt
 						val = w.valClass(leaf.NotAfter)
 						if id, ok := w.serIDs[leaf.SerialNumber.String()]; ok {
 							ser = id
+							// the stored file must be the chain the issuer returned, byte for byte; otherwise
+							// it does not count as a certificate for the subject
+							if d, ok := w.chainDigest[id]; ok && d != doubles.Digest(data) {
+								sub = 999999
+							}
 						}
 					}
 				}
